@@ -10,6 +10,7 @@ REALS = ("ValueType is modelled by exact reals (type R): every 'equals its defin
          "the size and growth of IEEE rounding error is NOT decided by this check")
 
 UNITS = {
+    "derived_window": dict(tpl="derived_window.rs.tpl", doc="methods::{LinearVolatility, Vidya}: windows over one-step changes"),
     "candle_methods": dict(tpl="candle_methods.rs.tpl", doc="methods::{TR, HeikinAshi, ADI} on an arbitrary dyn OHLCV"),
     "ohlcv": dict(tpl="ohlcv.rs.tpl", doc="core::OHLCV provided methods, Candle accessors, Source"),
     "ema": dict(tpl="ema.rs.tpl", doc="methods::{EMA, DMA, TMA, DEMA, TEMA, RMA, WSMA, TSI}"),
@@ -49,7 +50,7 @@ PROPS = {
     ),
 }
 
-C02_UNITS = ["window", "sma", "simple_window", "wma", "vwma", "st_dev", "mean_abs_dev", "compose_ma"]
+C02_UNITS = ["window", "sma", "simple_window", "wma", "vwma", "st_dev", "mean_abs_dev", "compose_ma", "derived_window", "candle_methods", "ohlcv"]
 
 PROPS["C02"] = dict(
     verus=C02_UNITS,
@@ -60,6 +61,15 @@ PROPS["C02"] = dict(
                  "sqrt is uninterpreted except r>=0 and r*r==x for x>=0 (axiom_sqrt); cloning a pair of values yields an equal pair (axiom_pair_clone)",
                  "std::slice::Iter is modelled by prelude SliceIt (verified exec code); iterator adapters are desugared by rule R8 to loops over next()",
                  "methods not listed in coverage.functions_under_contract are not covered by this claim"],
+)
+
+PROPS["C03"] = dict(
+    verus=["ema", "derived_window", "candle_methods", "simple_window", "ohlcv", "window"],
+    claim=("Each recursive method's next is verified against its documented recurrence as a one-step relation over exact reals "
+           "(EMA alpha*(n+1)==2; RMA/WSMA alpha*n==1; DMA/TMA/DEMA/TEMA by composition of the EMA contract; TSI with its >0 guard; "
+           "Vidya with the CMO of the window of changes; TR; HeikinAshi; cumulative Integral/ADI), new establishes the seed the documentation "
+           "prescribes; 'applied to the whole stream' is induction over that step, which holds for every state satisfying the invariant."),
+    assumptions=[REALS, "dyn OHLCV inputs are modelled by an opaque candle with five uninterpreted pure accessors (R10)"],
 )
 
 NOT_BUILT = {}
